@@ -19,6 +19,15 @@ Theorem C10_tee_exact : forall (b : bytes) (cs tail : list bytes) (stream : byte
 Proof. exact tee_pipe_run_exact. Qed.
 Print Assumptions C10_tee_exact.
 
+(* when Conductor's own stream stops accepting data after [ok] writes (its reader went away, the
+   device is full), the log is still exactly what the child wrote, the pipe is drained to its end,
+   and the stream has received exactly the first [ok] chunks (D25) *)
+Theorem C10_tee_exact_when_own_stream_fails : forall ok (b : bytes) (cs tail : list bytes) (stream : bytes),
+  Forall nonempty cs -> concat cs = b -> eof_tail tail ->
+  tee_loop_f ok (cs ++ tail) [] stream = (b, stream ++ concat (firstn ok cs)).
+Proof. intros ok b cs tail stream Hne <- Ht. now rewrite tee_loop_f_spec. Qed.
+Print Assumptions C10_tee_exact_when_own_stream_fails.
+
 (* stdout and stderr are copied by two threads; under every schedule, whenever a copier has
    finished (which OutputHandler.finish waits for) its log and its stream are exact, and it does
    finish once it has been scheduled often enough -- either stream first, any interleaving *)
@@ -54,22 +63,21 @@ Proof.
 Qed.
 Print Assumptions C10_mode.
 
-(* args.json exists iff the command exited 0 and args is non-empty, options.json likewise; both
-   are written before the version's row is inserted; a non-zero exit writes nothing *)
+(* args.json exists iff args is non-empty, options.json iff options is non-empty -- for EVERY
+   execution, whatever its exit status (D26); both are written before the exit status is examined;
+   a non-zero status then raises and inserts no row; a zero status inserts and commits the row last *)
 Theorem C10_presence : forall (A B : Type) (args : list A) (opts : list B) rc ae oe,
   record_rule args opts rc =
-    ((rc =? 0) && match args with [] => false | _ => true end,
-     (rc =? 0) && match opts with [] => false | _ => true end) /\
-  (rc <> 0 -> finish_execution rc true ae oe true = None) /\
-  (rc = 0 -> exists pre,
-     finish_execution rc true ae oe true = Some (pre ++ [InsertRow; CommitIndex]) /\
-     ~ In InsertRow pre /\ ~ In CommitIndex pre /\
-     (In WriteArgsJson pre <-> ae = false) /\ (In WriteOptionsJson pre <-> oe = false)).
+    (match args with [] => false | _ => true end, match opts with [] => false | _ => true end) /\
+  exists pre post,
+    finish_execution rc true ae oe true = pre ++ post /\
+    (forall e, In e pre -> e = WriteArgsJson \/ e = WriteOptionsJson) /\
+    (In WriteArgsJson pre <-> ae = false) /\ (In WriteOptionsJson pre <-> oe = false) /\
+    (rc <> 0 -> post = [RaiseNonZeroExit]) /\ (rc = 0 -> post = [InsertRow; CommitIndex]).
 Proof.
   intros A B args opts rc ae oe. split; [apply record_rule_spec|].
-  destruct (finish_spec rc true ae oe true) as [F1 F2]. split; [exact F1|].
-  intros H. destruct (F2 H) as (pre & E & N1 & N2 & I1 & I2). exists pre.
-  repeat (split; [assumption|]). split; [rewrite I1 | rewrite I2]; intuition.
+  destruct (finish_spec rc true ae oe true) as (pre & post & E & P & I1 & I2 & R1 & R2).
+  exists pre, post. repeat (split; [assumption|]). split; [rewrite I1 | split; [rewrite I2 | split; assumption]]; intuition.
 Qed.
 Print Assumptions C10_presence.
 
@@ -80,5 +88,5 @@ Example C10_nonvacuous :
              (tee_start [[97; 98]; [99]; []] [62]) (tee_start [[]] []) in
   tdone (fst r) = true /\ tfile (fst r) = [97; 98; 99] /\ tstream (fst r) = [62; 97; 98; 99] /\
   tdone (snd r) = true /\ tfile (snd r) = [] /\
-  record_rule [1; 2] (@nil N) 0 = (true, false) /\ record_rule [1; 2] [3] 7 = (false, false).
+  record_rule [1; 2] (@nil N) 0 = (true, false) /\ record_rule [1; 2] [3] 7 = (true, true).
 Proof. vm_compute. repeat split; reflexivity. Qed.
